@@ -1355,3 +1355,93 @@ Theorem C02_bridge_build_code_closed : forall impl dec p b k S,
               C01.ClassFile.k_vta := []; C01.ClassFile.k_ita := []; C01.ClassFile.k_unknown := [] |}).
 Proof. exact X12.BridgeFile2.build_code_closed. Qed.
 Print Assumptions C02_bridge_build_code_closed.
+
+(* ================================================================================================ *)
+(* Round 6, sixth layer — StackMapTable (coq/X12/BridgeFrames.v, BridgeFile3.v). *)
+From FB Require X12.BridgeFrames X12.BridgeFile3.
+
+(* one frame, decoder to reader: whatever C02's frame decoder (transcribed from read_stack_map_frame) accepts and
+   resolves (Object types through get_class), C01's frame_fmt reads from the same bytes to a value whose
+   offset_delta (C01's frame_delta) is the decoder's and whose normal form (C01's frame_norm) is the decoder's
+   frame: same / same_locals_1 / chop k / append / full, verification types as simple tags (Long 4, Double 3, …),
+   Object with the decoded class name, Uninitialized with its offset.  The frame_type encoding itself (same vs
+   same_frame_extended, …) is not part of the decoder's answer: hence "a value such that" *)
+Theorem C02_bridge_frame_read : forall impl dec cs s d f r t ff,
+  dec_frame s = Some (d, f, r) -> resolve_frame (cslots cs 1) f = Some ff ->
+  exists v, C01.Fmt.rd_fmt impl dec (C01.ClassFile.acc (X12.BridgePool.rpool dec cs)) C01.ClassFile.frame_fmt (s ++ t) = Ok (v, r ++ t) /\
+            C01.ClassFile.frame_delta v = Ok (Z.to_N d) /\ C01.ClassFile.frame_norm v = X12.BridgeFrames.ff_val dec ff.
+Proof. exact X12.BridgeFrames.frame_read. Qed.
+Print Assumptions C02_bridge_frame_read.
+
+(* the StackMapTable attribute through C01's Code format: the frames C01 reads have, under C01's own offset rule
+   frame_offsets (JVMS 4.7.4: C01_frame_offsets_jvms), the decoder's absolute offsets and, under frame_norm, the
+   decoder's contents (smt_rel) — and by C02_frames_written the decoder's frames are the tree's at the labelled positions *)
+Theorem C02_bridge_stack_map_table : forall impl dec cs s l r t,
+  X12.BridgePool.sdec dec s_StackMapTable = C01.Formats.a_StackMapTable ->
+  p_attr0 AtCode (cslots cs 1) s = Some (AStackMapTable l, r) ->
+  exists v, C01.Fmt.rd_fmt impl dec (C01.ClassFile.acc (X12.BridgePool.rpool dec cs)) (C01.Fmt.FAttr C01.ClassFile.code_sel) (s ++ t) = Ok (v, r ++ t) /\
+            X12.BridgeFrames.smt_rel dec l v.
+Proof. exact X12.BridgeFrames.attr_StackMapTable. Qed.
+Print Assumptions C02_bridge_stack_map_table.
+
+(* THE WHOLE FILE with StackMapTable: dclass_frag3 = the widened fragment + StackMapTable inside Code (the shape of
+   javac output for Java 7+ without annotations).  As C02_bridge_class_file_wide, with the method values related to the
+   facts (member_rel / mrel / code_rel / inner_rel: the explicit values of the widened fragment, a StackMapTable
+   attribute up to smt_rel) *)
+Theorem C02_bridge_class_file_frames : forall impl dec t bs aux d,
+  cclass_ok t = true -> write_class_aux t = WOK (bs, aux) ->
+  C01.Attr.header_ok C01.Tables.magic (Z.to_N (k_minor t)) (Z.to_N (k_major t)) = true ->
+  X12.BridgeClass.pool_utf8_ok dec (a_pool aux) = true -> X12.BridgeFile3.names_ok3 dec = true ->
+  facts_of t aux = Some d -> X12.BridgeFile3.dclass_frag3 d = true ->
+  exists cs cattrs mvals,
+    rev (p_inner (a_pool aux)) = map mk cs /\ agrees (a_pool aux) (cslots cs 1) /\
+    Forall2 (X12.BridgeFile2.crel dec cs) (d_attrs d) cattrs /\
+    Forall2 (X12.BridgeFile3.member_rel dec 2%N (X12.BridgeFile3.mrel dec)) (d_methods d) mvals /\
+    C01.ClassFile.read_class impl dec bs
+    = C01.ClassFile.build_class impl (X12.BridgePool.rpool dec cs) (Z.to_N (k_minor t)) (Z.to_N (k_major t))
+        (X12.BridgeClass.head_val dec t)
+        (C01.Fmt.VList cattrs)
+        (C01.Fmt.VList (map (X12.BridgeFile.member_val dec 1%N (X12.BridgeFile2.fattr_val2 dec)) (d_fields d)))
+        (C01.Fmt.VList mvals).
+Proof. exact X12.BridgeFile3.class_file_read3. Qed.
+Print Assumptions C02_bridge_class_file_frames.
+
+(* non-vacuity: the class of the widened example plus a method whose branch targets carry frames — append [Long; Double]
+   (tags 4, 3), same, full [Object A; Integer] / [Uninitialized L1]: inside dclass_frag3, outside dclass_frag2; and C01's
+   read_class on the written bytes, computed, delivers the three frames *)
+Theorem C02_bridge_class_file_frames_example : exists bs aux d cs cattrs mvals,
+  write_class_aux X12.BridgeFile3.ex_file3 = WOK (bs, aux) /\ cclass_ok X12.BridgeFile3.ex_file3 = true /\
+  facts_of X12.BridgeFile3.ex_file3 aux = Some d /\
+  X12.BridgeFile3.in_fragment3 X12.BridgeFile3.ex_file3 aux = true /\ X12.BridgeFile2.in_fragment2 X12.BridgeFile3.ex_file3 aux = false /\
+  Forall2 (X12.BridgeFile2.crel C01.Mutf8.mutf8_dec cs) (d_attrs d) cattrs /\
+  Forall2 (X12.BridgeFile3.member_rel C01.Mutf8.mutf8_dec 2%N (X12.BridgeFile3.mrel C01.Mutf8.mutf8_dec)) (d_methods d) mvals /\ length mvals = 2%nat /\
+  C01.ClassFile.read_class true C01.Mutf8.mutf8_dec bs
+  = C01.ClassFile.build_class true (X12.BridgePool.rpool C01.Mutf8.mutf8_dec cs) 0%N 61%N
+      (X12.BridgeClass.head_val C01.Mutf8.mutf8_dec X12.BridgeFile3.ex_file3)
+      (C01.Fmt.VList cattrs)
+      (C01.Fmt.VList (map (X12.BridgeFile.member_val C01.Mutf8.mutf8_dec 1%N (X12.BridgeFile2.fattr_val2 C01.Mutf8.mutf8_dec)) (d_fields d)))
+      (C01.Fmt.VList mvals) /\
+  X12.BridgeFile3.desc_check3 (C01.ClassFile.read_class true C01.Mutf8.mutf8_dec bs) = true.
+Proof. exact X12.BridgeFile3.class_file_example3. Qed.
+Print Assumptions C02_bridge_class_file_frames_example.
+
+(* UNKNOWN ATTRIBUTES through C01's formats (coq/X12/BridgeUnknown.v): where C02's decoder returns an unknown attribute
+   (name nb, bytes b) at class / field / method level or inside Code, and the DECODED name is none of the 31 names of
+   C01's tables (unk_ok dec nb, decidable on the name: the injectivity condition on the decoder), C01's reader falls
+   back to the raw bytes as well and delivers the decoded name with exactly the bytes *)
+From FB Require X12.BridgeUnknown.
+Theorem C02_bridge_unknown_attributes : forall impl dec cs,
+  (forall l s nb b r t, (l = AtClass \/ l = AtField \/ l = AtMethod) -> X12.BridgeUnknown.unk_ok dec nb = true ->
+     p_attr l (cslots cs 1) s = Some (ALeaf (AUnknown nb b), r) ->
+     C01.Fmt.rd_fmt impl dec (C01.ClassFile.acc (X12.BridgePool.rpool dec cs))
+       (C01.Fmt.FAttr (match l with AtClass => C01.ClassFile.class_sel | AtField => C01.ClassFile.field_sel | _ => C01.ClassFile.method_sel end)) (s ++ t)
+     = Ok (X12.BridgeUnknown.v_Unknown dec nb b, r ++ t)) /\
+  (forall s nb b r t, X12.BridgeUnknown.unk_ok dec nb = true ->
+     p_attr0 AtCode (cslots cs 1) s = Some (AUnknown nb b, r) ->
+     C01.Fmt.rd_fmt impl dec (C01.ClassFile.acc (X12.BridgePool.rpool dec cs)) (C01.Fmt.FAttr C01.ClassFile.code_sel) (s ++ t)
+     = Ok (X12.BridgeUnknown.v_Unknown dec nb b, r ++ t)).
+Proof.
+  exact (fun impl dec cs => conj (fun l s nb b r t => X12.BridgeUnknown.attr_Unknown impl dec cs l s nb b r t)
+                                 (fun s nb b r t => X12.BridgeUnknown.attr_Unknown0 impl dec cs s nb b r t)).
+Qed.
+Print Assumptions C02_bridge_unknown_attributes.
